@@ -29,10 +29,10 @@ RULE = ('every (project, options) is run in separate processes under each explor
 ASSUMPTIONS = [
     'hash seeds are a 2^32 space: covered for 0..15 (thorough 0..63); the listing order is permuted for pathlib.Path.iterdir, os.scandir and os.listdir',
     'a different ORDER OF ROOTS ON THE COMMAND LINE is a different invocation and not part of the property',
-    'SOURCE_DATE_EPOCH fixes the build time',
+    'the wall clock is owned through the same sitecustomize seam (datetime.datetime.now/utcnow/today, time.time answer $VERIF_FAKE_NOW)',
 ]
 FLOOR = {'quick': 200, 'thorough': 1000}
-SPACE = {'quick': '6 project shapes x 3 option variants x (seeds 1..7, 6 listing orders, 4 histories)', 'thorough': 'seeds 1..63, 24 listing permutations, 6 histories'}
+SPACE = {'quick': '6 project shapes x 3 option variants x (seeds 1..7, 6 listing orders, 4 histories); 7 ways of fixing the build time x 2 owned wall-clock times', 'thorough': 'seeds 1..63, 24 listing permutations, 6 histories'}
 JOB_TIMEOUT = 2400
 HOME = os.environ.get('VERIF_HOME', '/verif')
 REPO = os.environ.get('VERIF_REPO', '/repo')
@@ -42,6 +42,13 @@ OPTION_VARIANTS: Dict[str, List[str]] = {
     'source-order': ['--cls-member-order', 'source', '--mod-member-order', 'source'],
     'rtd-depth3': ['--theme', 'readthedocs', '--sidebar-expand-depth', '3', '--html-viewsource-base', 'http://example.org/src'],
 }
+
+
+# (name, SOURCE_DATE_EPOCH, extra options): every way the statement names to fix the build time, incl. the boundary values of the epoch
+BUILD_TIMES: List[Tuple[str, Optional[str], List[str]]] = [
+    ('epoch=1000000', '1000000', []), ('epoch=0', '0', []), ('epoch=1', '1', []), ('epoch=4102444800', '4102444800', []), ('epoch=00012', '00012', []),
+    ('buildtime-option', None, ['--buildtime', '2001-02-03 04:05:06']), ('buildtime-option+epoch', '5', ['--buildtime', '2001-02-03 04:05:06']),
+]
 
 
 def tree(d: str) -> Dict[str, Tuple[str, Any]]:
@@ -85,9 +92,16 @@ def mkproj(base: str, nroots: int) -> List[str]:
     return roots
 
 
-def run(roots: Sequence[str], out: str, seed: int, listorder: Optional[str], name: Optional[str], extra: Sequence[str]) -> Tuple[int, str]:
-    env = dict(os.environ, PYTHONHASHSEED=str(seed), SOURCE_DATE_EPOCH='1000000', PYTHONPATH=os.path.join(HOME, 'mc', 'sitecustom') + os.pathsep + REPO, PYTHONDONTWRITEBYTECODE='1')
+def run(roots: Sequence[str], out: str, seed: int, listorder: Optional[str], name: Optional[str], extra: Sequence[str],
+        epoch: Optional[str] = '1000000', now: Optional[str] = None) -> Tuple[int, str]:
+    env = dict(os.environ, PYTHONHASHSEED=str(seed), PYTHONPATH=os.path.join(HOME, 'mc', 'sitecustom') + os.pathsep + REPO, PYTHONDONTWRITEBYTECODE='1')
     env.pop('VERIF_LISTORDER', None)
+    env.pop('SOURCE_DATE_EPOCH', None)
+    env.pop('VERIF_FAKE_NOW', None)
+    if epoch is not None:
+        env['SOURCE_DATE_EPOCH'] = epoch
+    if now is not None:
+        env['VERIF_FAKE_NOW'] = now
     if listorder:
         env['VERIF_LISTORDER'] = listorder
     cwd = os.path.dirname(out)
@@ -155,6 +169,38 @@ def judge_project(nroots: int, named: bool, variant: str, tier: str, res: Dict[s
         rc, tail = run(roots, ref, 5, 'rot1', name, extra)
         res['evals'] += 1; res['traces'] += 1
         cmp('reused-dir', 'third-run', ref, refh)
+        if nroots == 1 and not named and variant == 'default':
+            # control of the clock seam itself: with no build time fixed, runs at the two owned times must differ (else the seam owns nothing)
+            ctl = []
+            for now in ('1700000000', '1893456789'):
+                o = os.path.join(base, 'cwd', f'ctl{len(ctl)}')
+                run(roots, o, 0, None, name, extra, epoch=None, now=now)
+                ctl.append(tree_hash(tree(o)) if os.path.isdir(o) else '')
+                shutil.rmtree(o, ignore_errors=True)
+            core.bump(res, 'clock_seam_controls')
+            if ctl[0] == ctl[1]:
+                raise RuntimeError('the fake clock has no effect on the output: the wall-clock dimension would be vacuous')
+        # the clock: the same build time given as SOURCE_DATE_EPOCH or --buildtime, runs made at two different (owned) wall-clock times
+        for how, epoch, bt in BUILD_TIMES if (variant == 'default' or tier == 'thorough') else ():
+            outs = []
+            for now in ('1700000000', '1893456789'):
+                o = os.path.join(base, 'cwd', f'clock{len(outs)}')
+                rc, tail = run(roots, o, 0, None, name, list(extra) + bt, epoch=epoch, now=now)
+                res['evals'] += 1; res['traces'] += 1
+                outs.append((o, tree(o) if os.path.isdir(o) else {}))
+            (o1, t1), (o2, t2) = outs
+            res['nontrivial'].add(core.h(nroots, named, variant, 'clock', how))
+            res['states'].add(core.h(nroots, named, variant, how, tree_hash(t1)))
+            res['states'].add(core.h(nroots, named, variant, how, tree_hash(t2)))
+            res['transitions'].add(core.h(nroots, named, variant, how, tree_hash(t1), tree_hash(t2)))
+            res['outcomes'].add(('clock', t1 == t2))
+            if not t1 or t1 != t2:
+                diff = sorted(k for k in set(t1) | set(t2) if t1.get(k) != t2.get(k))
+                res['violations'].append(core.violation(f'output-differs/wall-clock/{how}',
+                                                        f'{nroots} root(s), options {variant}, build time given as {how}: two runs at different wall-clock times differ in {len(diff)} file(s), e.g. {diff[:4]}',
+                                                        dict(case0, env='wall-clock', detail=how)))
+            shutil.rmtree(o1, ignore_errors=True)
+            shutil.rmtree(o2, ignore_errors=True)
         if tier == 'thorough':
             for seed, lo in ((11, 'perm5'), (12, 'perm17'), (13, 'rot2')):
                 rc, tail = run(roots, ref, seed, lo, name, extra)
